@@ -597,6 +597,67 @@ theorem as_nurbs_model {X : Type} (F : Func K) (m : Nat) (B : Nat → X → Info
   rw [key b (by omega), key m (Nat.le_refl m), if_pos hb', if_neg (Nat.lt_irrefl m), div_one]
 
 
+
+/-- entries of `outerOp` (coefficient array of `outer_sum` / `outer_product`) -/
+theorem outerOp_getD (op : K → K → K) (n1 m1 n2 m2 : Nat) (C1 C2 : List K) (k1 k2 b : Nat)
+    (h1 : k1 < n1) (h2 : k2 < n2) (hb : b < max m1 m2) :
+    (outerOp op n1 m1 n2 m2 C1 C2).getD ((k1 * n2 + k2) * max m1 m2 + b) 0
+      = op (C1.getD (k1 * m1 + b % m1) 0) (C2.getD (k2 * m2 + b % m2) 0) := by
+  unfold outerOp
+  simp only
+  have hin : ∀ I1 I2, ((List.range (max m1 m2)).map (fun b =>
+      op (C1.getD (I1 * m1 + b % m1) 0) (C2.getD (I2 * m2 + b % m2) 0))).length = max m1 m2 := by
+    intro I1 I2; simp
+  have hout : ∀ I1, ((List.range n2).flatMap (fun I2 => (List.range (max m1 m2)).map (fun b =>
+      op (C1.getD (I1 * m1 + b % m1) 0) (C2.getD (I2 * m2 + b % m2) 0)))).length = n2 * max m1 m2 := by
+    intro I1; exact length_flatMap_chunks n2 (max m1 m2) _ (hin I1)
+  have e : (k1 * n2 + k2) * max m1 m2 + b = k1 * (n2 * max m1 m2) + (k2 * max m1 m2 + b) := by ring
+  have hlt : k2 * max m1 m2 + b < n2 * max m1 m2 := by
+    calc k2 * max m1 m2 + b < k2 * max m1 m2 + max m1 m2 := by omega
+      _ = (k2 + 1) * max m1 m2 := by ring
+      _ ≤ n2 * max m1 m2 := Nat.mul_le_mul_right _ (by omega)
+  rw [e, getD_flatMap_chunks 0 n1 (n2 * max m1 m2) _ hout k1 _ h1 hlt,
+    getD_flatMap_chunks 0 n2 (max m1 m2) _ (hin k1) k2 b h2 hb]
+  exact getD_map_range 0 _ _ b hb
+
+/-- **outer_sum / outer_product of two BSplineFuncs, on the model's list-level constructor**
+(`kvs = G1.kvs + G2.kvs`, trailing components broadcast): value at the node `ys1 ++ ys2` (zyx) is
+`G1(ys1) + G2(ys2)` resp. `G1(ys1) · G2(ys2)`. -/
+theorem outer_model {X : Type} (G1 G2 : Func K) (B : Nat → X → Info K) (ys1 ys2 : List X) (b : Nat)
+    (hl1 : ys1.length = G1.dims.length) (hl2 : ys2.length = G2.dims.length)
+    (hs : (bspOuter (· + ·) G1 G2).ncomp = max G1.ncomp G2.ncomp)
+    (hp : (bspOuter (· * ·) G1 G2).ncomp = max G1.ncomp G2.ncomp)
+    (hb : b < max G1.ncomp G2.ncomp)
+    (hpu1 : PU (rows B 0 G1.dims ys1 (List.replicate G1.dims.length 0)))
+    (hpu2 : PU (rows B G1.dims.length G2.dims ys2 (List.replicate G2.dims.length 0))) :
+    (bspOuter (· + ·) G1 G2).toSpl.gridVal B (ys1 ++ ys2) b
+      = G1.toSpl.gridVal B ys1 (b % G1.ncomp)
+        + contract G2.at G2.ncomp (b % G2.ncomp) (rows B G1.dims.length G2.dims ys2 (List.replicate G2.dims.length 0)) 0 ∧
+    (bspOuter (· * ·) G1 G2).toSpl.gridVal B (ys1 ++ ys2) b
+      = G1.toSpl.gridVal B ys1 (b % G1.ncomp)
+        * contract G2.at G2.ncomp (b % G2.ncomp) (rows B G1.dims.length G2.dims ys2 (List.replicate G2.dims.length 0)) 0 := by
+  have hs1 := size_rows B G1.dims ys1 (List.replicate G1.dims.length 0) 0 hl1 (by simp)
+  have hs2 := size_rows B G2.dims ys2 (List.replicate G2.dims.length 0) G1.dims.length hl2 (by simp)
+  constructor
+  · show contract (bspOuter (· + ·) G1 G2).at (bspOuter (· + ·) G1 G2).ncomp b
+        (rows B 0 (G1.dims ++ G2.dims) (ys1 ++ ys2) (List.replicate (G1.dims ++ G2.dims).length 0)) 0 = _
+    rw [hs, List.length_append, List.replicate_add,
+      rows_append B G2.dims ys2 _ G1.dims ys1 _ 0 hl1 (by simp), Nat.zero_add]
+    exact outer_sum_law (bspOuter (· + ·) G1 G2).at G1.at G2.at _ G1.ncomp G2.ncomp _ _ b
+      (fun k1 k2 hk1 hk2 => by
+        rw [hs2]; rw [hs1] at hk1; rw [hs2] at hk2
+        exact outerOp_getD (· + ·) G1.npts G1.ncomp G2.npts G2.ncomp G1.c G2.c k1 k2 b hk1 hk2 hb)
+      hpu1 hpu2
+  · show contract (bspOuter (· * ·) G1 G2).at (bspOuter (· * ·) G1 G2).ncomp b
+        (rows B 0 (G1.dims ++ G2.dims) (ys1 ++ ys2) (List.replicate (G1.dims ++ G2.dims).length 0)) 0 = _
+    rw [hp, List.length_append, List.replicate_add,
+      rows_append B G2.dims ys2 _ G1.dims ys1 _ 0 hl1 (by simp), Nat.zero_add]
+    exact outer_product_law (bspOuter (· * ·) G1 G2).at G1.at G2.at _ G1.ncomp G2.ncomp _ _ b
+      (fun k1 k2 hk1 hk2 => by
+        rw [hs2]; rw [hs1] at hk1; rw [hs2] at hk2
+        exact outerOp_getD (· * ·) G1.npts G1.ncomp G2.npts G2.ncomp G1.c G2.c k1 k2 b hk1 hk2 hb)
+
+
 /-! ## 4. circular arcs lie on exact circles -/
 
 /-- **one rational quadratic segment.**  Control points (premultiplied, as coded)
